@@ -53,8 +53,15 @@ def sendHeaders (sid : Int) (headers : List Header) (endStream : Bool)
     let n ← openOutboundStreams
     if n + 1 > maxOpen then raise (mkExc .TooManyStreamsError) else pure ()
   connInput .SEND_HEADERS
+  let opening := !hasStream c sid
   getOrCreateStream sid c.cfg.client
-  let frames ← withStreamHp sid (Stream.sendHeaders c.cfg headers endStream priorityPresent)
+  let frames ← tryCatch (withStreamHp sid (Stream.sendHeaders c.cfg headers endStream priorityPresent))
+    (fun _ => true)
+    (fun e => do
+      -- a refused request leaves no idle stream behind: `del self.streams[stream_id]`, highest id restored
+      if opening then
+        modifyS (fun c' => { c' with streams := c'.streams.filter (fun s => s.1 != sid), highestOut := c.highestOut })
+      raise e)
   let frames ← if priorityPresent then
       match frames with
       | .headers s b es eh pad _ :: rest => do
